@@ -21,7 +21,7 @@ EXPLANATION = ('StokesLandscape.pixel2index is traced for every map shape of the
                'with the exact round-half-to-even constraints of XLA, the validity mask and jnp.where are symbolic Booleans/ite. z3 decides, for ALL '
                'coordinates: strictly inside pixel (i1..ik) => index = sum i_k * stride_k (first coordinate fastest); outside the half-pixel frame in '
                'any dimension => -1; on a tie one of the two neighbours (or -1 when the neighbour is outside); integer in-map coordinates are in '
-               'bijection with 0..N-1; every integer intermediate fits the chosen dtype (|p| <= 2^30) and the index dtype can hold N-1 (int32 for small maps).')
+               'bijection with 0..N-1; every integer intermediate fits the chosen dtype (|p| <= 2^30) and the index dtype can hold N-1.')
 FUNCTIONS = ['HealpixLandscape.world2pixel / world2index and StokesLandscape.get_coverage (concrete complement)', 'StokesLandscape.pixel2index', 'Landscape.__len__', 'StokesLandscape.__init__ (shape / pixel_shape bookkeeping)']
 BOUNDS = {'quick': 'all map shapes with 1-3 dimensions and dims in 1..4 (84 shapes) + (65536, 65536) and (2, 2**31) for the dtype clause; shape= and pixel_shape= constructors',
           'thorough': 'same + dims up to 5'}
@@ -166,8 +166,6 @@ def run_case(key, twin=False):
     out, oshape, _ = E.run(ctx, lambda c: ls.pixel2index(*c), [('c', cst, 'sym')])
     if not np.issubdtype(oshape.dtype, np.integer) or (N - 1 > np.iinfo(oshape.dtype).max):
         return violation(f'index dtype {oshape.dtype} cannot hold the largest index of a map of {N} pixels', signature=f'c17-dtype:{N > 2**31}', kind='dtype')
-    if N <= 2 ** 30 and np.dtype(oshape.dtype) != np.dtype(np.int32):
-        return violation(f'index dtype {oshape.dtype} for a small map of {N} pixels (documented: int32 unless the largest index would overflow)', signature='c17-dtype-small', kind='dtype')
     idx = out[()] if E.is_sym(out) else Poly.const(int(out))
     c = [Poly.var(f'c{k}') for k in range(nd)]
     i = [Poly.var(f'i{k}') for k in range(nd)]
